@@ -156,7 +156,8 @@ fn main() {
         let p = Params::from_json(&v["params"]).expect("params");
         let model: Vec<(String, String)> =
             v["model"].as_array().unwrap().iter().map(|x| (x[0].as_str().unwrap().to_string(), x[1].as_str().unwrap().to_string())).collect();
-        let order = v["order"].as_str().unwrap_or("ed25519");
+        // Taproot cases are explored over the stubbed build (order "secp256k1") but replayed on the real frost-secp256k1-tr
+        let order = if v["suite"].as_str() == Some("frost-secp256k1-tr") { "secp256k1-tr" } else { v["order"].as_str().unwrap_or("ed25519") };
         let (checks, fails, suite) = real_run_on(order, v["property"].as_str().unwrap(), &p, v["seed"].as_u64().unwrap_or(1), &model);
         println!("replay on {suite}: {checks} concrete obligations, {} failed", fails.len());
         for f in &fails {
